@@ -1,13 +1,16 @@
 //! C14: tiny-std file-system operations judged by a model tree + std::fs as independent observer.
 //!
 //! usage: h_fs <mode> <seed> <budget> <basedir> <fslabel> [chroot]
-//! modes: seq | cda | len | copy | rw | readdir | rmall | short
+//! modes: seq | cda | len | copy | rw | readdir | rmall | short | sig | eintr [plan=FILE] (eintr runs under sysmon)
 //!
 //! Every evaluated operation is bracketed by two full std::fs snapshots (paths, kinds, contents,
 //! link targets, permission bits) of the sandbox root R = <basedir>/<unique>, which holds the
 //! operated tree `t`, the sentinel tree `s` and scenario directories. The model (`model_*`)
 //! resolves the path over the pre-snapshot (symlinks, `.`/`..`, repeated separators) and predicts
 //! the post-snapshot; `Ok` from tiny-std must imply post == prediction. `Err` is never judged.
+mod disturb;
+#[path = "/verif/engines/sysmon/marker.rs"]
+mod marker;
 mod model;
 mod snap;
 
@@ -98,8 +101,37 @@ fn with_fsize<T>(limit: Option<u64>, f: impl FnOnce() -> T) -> T {
     r
 }
 
-fn exec(op: &Op, iter_cap: usize, fsize: Option<u64>) -> Out {
-    with_fsize(fsize, || exec_inner(op, iter_cap))
+/// Conditions under which the tiny-std call runs (everything else in the process runs undisturbed).
+#[derive(Clone, Default)]
+pub(crate) struct Env {
+    /// soft RLIMIT_FSIZE (mode `short`)
+    pub fsize: Option<u64>,
+    /// a helper thread sends SIGUSR1 (handler without SA_RESTART) to this thread while the call runs
+    pub storm: Option<disturb::Storm>,
+    /// under sysmon: (scenario, case, nr, k): BEGIN/END markers around the call and, if nr >= 0, the
+    /// k-th system call `nr` issued by the call is not executed and returns -EINTR
+    pub inject: Option<(i64, i64, i64, i64)>,
+}
+
+/// Returns the outcome and the number of signals the handler saw while the call ran.
+fn exec(op: &Op, iter_cap: usize, env: &Env) -> (Out, u64) {
+    let before = disturb::signals_seen();
+    let killer = env.storm.as_ref().map(disturb::start_storm);
+    if let Some((s, c, nr, k)) = env.inject {
+        marker::begin(s, c, nr);
+        if nr >= 0 {
+            marker::inject(marker::SCOPE_THREAD, nr, k, -4, 1);
+        }
+    }
+    let out = with_fsize(env.fsize, || exec_inner(op, iter_cap));
+    if let Some((s, c, _, _)) = env.inject {
+        marker::disarm();
+        marker::end(s, c, 0, 0, 0);
+    }
+    if let Some(k) = killer {
+        disturb::stop_storm(k);
+    }
+    (out, disturb::signals_seen() - before)
 }
 
 fn exec_inner(op: &Op, iter_cap: usize) -> Out {
@@ -186,6 +218,13 @@ struct Ctx {
     samples_ok: u32,
     /// soft RLIMIT_FSIZE in force while the tiny-std call runs (mode `short`)
     fsize: Option<u64>,
+    /// signal storm / EINTR injection around the tiny-std call (modes `sig`, `eintr`)
+    storm: Option<disturb::Storm>,
+    inject: Option<(i64, i64, i64, i64)>,
+    /// signatures get an `interrupted-` prefix: the call ran under a signal storm or EINTR injection
+    intr: bool,
+    /// signals seen by the handler during the most recent tiny-std call
+    last_signals: u64,
     /// outcome of the most recent run_op: held | viol:<what> | err:<errno> | panic | skipped
     last: String,
     entries_iterated: u64,
@@ -196,7 +235,22 @@ impl Ctx {
     fn count(&mut self, k: &str, n: u64) {
         *self.counters.entry(k.to_string()).or_insert(0) += n;
     }
+    fn env(&self) -> Env {
+        Env {
+            fsize: self.fsize,
+            storm: self.storm.clone(),
+            inject: self.inject,
+        }
+    }
     fn viol(&mut self, sig: &str, op: &Op, extra: &str) {
+        let renamed;
+        let sig = if self.intr {
+            let (head, what) = sig.rsplit_once('/').unwrap_or(("C14", sig));
+            renamed = format!("{head}/interrupted-{what}");
+            renamed.as_str()
+        } else {
+            sig
+        };
         self.last = format!("viol:{}", sig.rsplit('/').next().unwrap_or(sig));
         self.count(&format!("violations/{sig}"), 1);
         let n = self.viol_seen.entry(sig.to_string()).or_insert(0);
@@ -266,6 +320,7 @@ fn errno_name(e: Option<i32>) -> String {
         None => "nocode".into(),
         Some(1) => "EPERM".into(),
         Some(2) => "ENOENT".into(),
+        Some(4) => "EINTR".into(),
         Some(13) => "EACCES".into(),
         Some(17) => "EEXIST".into(),
         Some(18) => "EXDEV".into(),
@@ -375,7 +430,8 @@ fn run_op(cx: &mut Ctx, op: &Op, pre: Option<Snap>, scen: &str) -> Option<Snap> 
     };
     // markers let the driver attribute a death by signal to the tiny-std call that was running
     println!("##B {}", op.json());
-    let out = exec(op, expected_entries * 3 + 1000, cx.fsize);
+    let (out, nsig) = exec(op, expected_entries * 3 + 1000, &cx.env());
+    cx.last_signals = nsig;
     println!("##E");
     let post = match snapshot() {
         Ok(s) => s,
@@ -497,8 +553,15 @@ fn run_op(cx: &mut Ctx, op: &Op, pre: Option<Snap>, scen: &str) -> Option<Snap> 
                     if let (Value::Bytes(got), Some(want)) = (val, &exp.bytes) {
                         if got != want {
                             held = false;
+                            let what = if cx.intr && got.len() < want.len() && want.starts_with(got) {
+                                "C14/read/read-truncated-result"
+                            } else if cx.intr {
+                                "C14/read/read-wrong-content"
+                            } else {
+                                "C14/read/wrong-content"
+                            };
                             cx.viol(
-                                "C14/read/wrong-content",
+                                what,
                                 op,
                                 &format!("\"want_len\":{},\"got_len\":{}", want.len(), got.len()),
                             );
@@ -1987,7 +2050,7 @@ fn mode_short(cx: &mut Ctx, budget: u64) {
                     as_string,
                 };
                 println!("##B {}", op.json());
-                let out = exec(&op, 0, None);
+                let (out, _) = exec(&op, 0, &Env::default());
                 println!("##E");
                 let _ = writer.join();
                 let _ = std::fs::remove_file(osp(&name));
@@ -2047,7 +2110,7 @@ fn mode_short(cx: &mut Ctx, budget: u64) {
                     as_string,
                 };
                 println!("##B {}", op.json());
-                let out = exec(&op, 0, None);
+                let (out, _) = exec(&op, 0, &Env::default());
                 println!("##E");
                 // the observer reads again afterwards: only judge when the file was stable
                 let stable = std::fs::read(path).map(|w| w == want).unwrap_or(false);
@@ -2116,6 +2179,10 @@ fn main() {
         viol_seen: BTreeMap::new(),
         samples_ok: 0,
         fsize: None,
+        storm: None,
+        inject: None,
+        intr: false,
+        last_signals: 0,
         last: String::new(),
         entries_iterated: 0,
         largest_dir: 0,
@@ -2129,6 +2196,11 @@ fn main() {
         "readdir" => mode_readdir(&mut cx, a.budget),
         "rmall" => mode_rmall(&mut cx, a.budget),
         "short" => mode_short(&mut cx, a.budget),
+        "sig" => disturb::mode_sig(&mut cx, a.budget),
+        "eintr" => disturb::mode_eintr(
+            &mut cx,
+            a.rest.iter().find_map(|x| x.strip_prefix("plan=")).map(str::to_string),
+        ),
         m => vh::inconclusive(&format!("unknown mode {m}")),
     });
     if let Err(p) = res {
